@@ -31,6 +31,7 @@ CONSTANTS Cap0,        \* first capacity of bufadd / arrayadd (256)
           MaxParam,    \* macro parameters / arguments explored
           NObjHash,    \* number of object-like replacement lists containing # / ## rendered by the harness
           HashHash,    \* which of them (0-based) contain ## (not implemented by cproc: status left open)
+          NAttrName,   \* attribute names compared in attr.c (read by the harness at run time) plus one unknown name
           NGuard,      \* number of range-guard probes rendered by the harness (eval.c float->int, decl.c array size, ...)
           BigLens,     \* large token lengths named by the property (beyond MaxLen; same growth rule)
           Depths       \* nesting depths named by the property
@@ -162,8 +163,15 @@ ArityCases ==
 (* unexpanding #, followed by "(" and across lines; -E must print it (class 0); ## is not implemented by cproc (open).  *)
 ObjHashCases == {[fam |-> "objhash", n |-> 8 * b + u, class |-> IF b \in HashHash THEN 2 ELSE 0, held |-> -1] : b \in 0..(NObjHash - 1), u \in 0..7}
 
+(* Attribute sweep (attr.c: parseattr is called with a == NULL from every place but tagspec): every name x spelling     *)
+(* {x, __x__} x prefix {none, gnu::, __gnu__::} ([[ ]] only) x argument {none, (8), (3), ()} x syntax {[[ ]],               *)
+(* __attribute__(( ))} x 9 positions where attributes are parsed.  Which of them are accepted is C10's business: the    *)
+(* class is open, the run must end with status 0 or 1.  n = ((((name*2+sp)*4+pre)*4+arg)*2+syn)*9+pos.                   *)
+AttrCases == {[fam |-> "attr", n |-> ((((nm * 2 + sp) * 4 + pre) * 4 + a) * 2 + syn) * 9 + pos, class |-> 2, held |-> -1] :
+                nm \in 0..(NAttrName - 1), sp \in 0..1, pre \in 0..2, a \in 0..3, syn \in 0..1, pos \in 0..8}
+
 Cases ==
-       ObjHashCases \cup EscCases \cup {c \in ArityCases : LET na == (c.n \div 2) % 8 np == c.n \div 96 IN na <= np + 2 /\ (c.n % 2 = 1 => na >= 2)} \cup
+       {c \in AttrCases : (c.n \div 9) % 2 = 1 => ((c.n \div 72) % 4 = 0)} \cup ObjHashCases \cup EscCases \cup {c \in ArityCases : LET na == (c.n \div 2) % 8 np == c.n \div 96 IN na <= np + 2 /\ (c.n % 2 = 1 => na >= 2)} \cup
        {[fam |-> f, n |-> n, class |-> 0, held |-> -1] : f \in {"ident", "string", "ppnumber", "floatconst", "comment", "escstring"}, n \in {k \in TokLens : k >= 1}}
   \cup {[fam |-> f, n |-> n, class |-> 0, held |-> -1] : f \in {"macrobody", "macrochain", "macroargtoks", "callargs", "strconcat", "peeknl", "initlist", "params"}, n \in Counts}
   \cup {[fam |-> "stringize", n |-> n, class |-> 0, held |-> -1] : n \in {k \in TokLens : k >= 1 /\ k \notin BigLens}}
